@@ -169,4 +169,10 @@ ISO-8859 family, and for ASCII rejection of every byte ≥ 0x80 -/
 def nameDemands (name : List Nat) (p : Nat → Bool) (c : Nat) : Bool :=
   byteDemands (isoFamily name) p c && (!(asciiFamily name && 0x80 ≤ c) || !p c)
 
+/-! ## text widget: length limits are about code points of the value just loaded -/
+
+/-- the documented meaning of `limits(low,high)`: at least `low` characters, at most `high`
+unless `high` is negative (no maximum) -/
+def withinLimits (low high : Int) (n : Nat) : Bool := low ≤ (n : Int) && (high < 0 || (n : Int) ≤ high)
+
 end Cppcms.C14.Spec
